@@ -77,3 +77,39 @@ pub fn leak_borrow(what: u8, c: usize, r: usize) {
     all_dropped();
     end_reached!();
 }
+
+/// Leaked drains over Copy elements (no drop glue): distinct cell values stand in for identity.
+pub fn leak_drain_u8(is_row: bool, c: usize, r: usize) {
+    let cells: [u8; 16] = [0, 1, 2, 3, 4, 5, 6, 7, 8, 9, 10, 11, 12, 13, 14, 15];
+    let mut t = owned_u8(c, r, &cells, false);
+    let dim = if is_row { r } else { c };
+    let idx = nd::below(dim);
+    let take = nd::upto(2);
+    if is_row {
+        let mut d = t.remove_row(idx);
+        if take > 0 { d.next(); }
+        if take > 1 { d.next_back(); }
+        core::mem::forget(d);
+    } else {
+        let mut d = t.remove_col(idx);
+        if take > 0 { d.next(); }
+        if take > 1 { d.next_back(); }
+        core::mem::forget(d);
+    }
+    inv(&t);
+    let n = t.data().len();
+    assert!(n <= c * r, "ORACLE: array grew by leaking a drain");
+    if n > 1 {
+        let a = nd::below(n);
+        let b = nd::below(n);
+        if a != b {
+            assert!(t.data()[a] != t.data()[b], "ORACLE: an element is reachable twice after leaking a drain");
+        }
+    }
+    if n > 0 {
+        t.data_mut()[0] = 99;
+    }
+    t.clear();
+    inv(&t);
+    end_reached!();
+}
